@@ -30,6 +30,9 @@ func init() {
 		Rule{ID: "R14g", Doc: "lock pairing", Floor: 25, Run: r14g},
 		Rule{ID: "R13d", Doc: "gnet partial-read state invariants (a mis-framed query gets no response; shared with C13)", Floor: 10, Run: r13d},
 		Rule{ID: "R09c", Doc: "stream responses are packed under the 65535 limit so that the length prefix is the frame length (shared with C09)", Floor: 6, Run: r09c},
+		Rule{ID: "R20j", Doc: "reply control messages built in pool buffers are written completely (a stale interface index makes sendmsg fail: no response)", Floor: 3, Run: r20j},
+		Rule{ID: "R16c", Doc: "an exchange never returns (nil, nil) (shared with C16)", Floor: 4, Run: r16c},
+		Rule{ID: "R13e", Doc: "one frame, one Write on stream listeners (shared with C13)", Floor: 4, Run: r13e},
 	)
 }
 
